@@ -4,6 +4,7 @@ import (
 	"encoding/hex"
 	"encoding/json"
 	"fmt"
+	"hash/fnv"
 	"strings"
 	"sync"
 	"sync/atomic"
@@ -119,7 +120,15 @@ func (j *c04Judge) visit(acc *dtAcc, vr *dtVariant, v *dtVal, pk bool) {
 	useQueue := vr.K == dkBytes || vr.K == dkStr || vr.K == dkDec || (acc.evals%5 == 0)
 	acc.evals++
 	acc.counts["params/"+vr.Name]++
-	wire, got, stage, err, pi := dtPkgParamsRoundTrip(vr, v, f, useQueue)
+	// the format's status bits (return parameter 0x01, per-field status
+	// byte 0x08, updatable 0x10, nullable 0x20) in combinations; chosen as
+	// a function of the value so that a replay uses the same one
+	pf := f
+	hs := fnv.New32a()
+	hs.Write([]byte(vr.label() + dtDescribe(v)))
+	pf.Status = []uint32{0, 0, 0x20, 0x08, 0x28, 0x09, 0x29, 0x01, 0x10, 0x38}[hs.Sum32()%10]
+	acc.counts[fmt.Sprintf("params_format_status/%#x", pf.Status)]++
+	wire, got, stage, err, pi := dtPkgParamsRoundTrip(vr, v, pf, useQueue)
 	pmode := mode
 	if pmode == dtCmpNoPS {
 		pmode = dtCmpExact // precision and scale travel in the format
@@ -309,7 +318,7 @@ func runC04(c *Ctx) {
 	r := c.R
 	r.Rule = "every data type with a Go mapping except BLOB (37 types, 46 type/length variants) x the value domains of DESIGN.md C04 (all 8/16-bit integers; boundary/power-of-two/strided/seeded 32/64-bit, money; float specials + seeded bit patterns; every precision 1..38 x scale 0..p decimals; every calendar day 0001-01-01..9999-12-31; every 1/300 s tick of a day (thorough; every 97th in quick) x days {1753-01-01, 1899-12-31, 1900-01-01, 1900-01-02, 9999-12-31}; sub-tick instants; 1440 minutes x sampled days; sampled microsecond times; byte/character/Unicode strings of lengths 1..max); each value: GoValue(Bytes(v)), PARAMS written+read by the library, reference ROWFMT2+ROW read by the library; non-trivial = value is not the Go type's zero value; distinct = distinct (variant, value), enumerated or de-duplicated"
 	r.Assumptions = []string{
-		"time values are in UTC; TIME/TIMEN/BIGTIMEN carry the time of day only, the date part of the decoded value is the library's choice and is not judged",
+		"time values are in UTC in the main leg (a zone leg adds fixed offsets and named daylight-saving locations: the round trip of such a value must equal the round trip of its wall-clock reading or of its UTC instant); TIME/TIMEN/BIGTIMEN carry the time of day only, the date part of the decoded value is the library's choice and is not judged",
 		"DATE values are midnights (the type's domain is days)",
 		"UNITEXT values do not end in NUL (the decoder strips trailing NULs on purpose)",
 		"a *Decimal without a number (asetypes.NullDecimal treats it as not valid) counts as NULL for MONEYN/DECN/NUMN",
@@ -326,6 +335,17 @@ func runC04(c *Ctx) {
 	}
 	j := &c04Judge{c: c, agg: newDtAgg()}
 	if c.Replay != nil {
+		var zc c05ZoneCase
+		if json.Unmarshal(c.Replay, &zc) == nil && zc.Zone == "zone" {
+			if vr := dtFind(zc.Type); vr != nil {
+				if w, err := time.Parse(time.RFC3339Nano, zc.Wall); err == nil {
+					acc := newDtAcc(r)
+					c04ZoneRoundTrip(r, acc, vr, w.UTC(), zc.Offset, zc.Loc)
+					acc.flush()
+				}
+			}
+			return
+		}
 		var cs dtCase
 		if err := json.Unmarshal(c.Replay, &cs); err != nil {
 			r.Inconclusive("bad replay: %v", err)
@@ -343,7 +363,11 @@ func runC04(c *Ctx) {
 		return
 	}
 	visit := dtSampling(c, j.visit)
-	dtRun(c, dtBuildWork(c, visit))
+	work := dtBuildWork(c, visit)
+	work = append(work, func(acc *dtAcc) {
+		dtZoneIter((&c05Judge{c: c}).zoneWalls(), func(vr *dtVariant, w time.Time, off int, ln string) { c04ZoneRoundTrip(r, acc, vr, w, off, ln) })
+	})
+	dtRun(c, work)
 	j.agg.flush(r, false)
 }
 
